@@ -94,7 +94,35 @@ fn run_case(ctx: &mut Ctx, c: &Case, class: &str) {
     if via_clone {
         ctx.count("launches_through_a_cloned_config", 1);
     }
-    let m = run::monitored(|| Popen::create(&argv, config));
+    // the same request through the Exec builder (it has no executable override and no setpgid)
+    let via_exec = !c.exe_override && !c.setpgid && c.argv.len() % 3 == 2;
+    let m = if via_exec {
+        ctx.count("launches_through_the_exec_builder", 1);
+        use subprocess::ExecExt;
+        let mut e = subprocess::Exec::cmd(&argv[0]).args(&argv[1..]);
+        if let Some(list) = &c.env {
+            e = e.env_clear();
+            // half in one go, half one by one
+            let (a, b) = list.split_at(list.len() / 2);
+            e = e.env_extend(&a.iter().map(|(k, v)| (os(k), os(v))).collect::<Vec<_>>());
+            for (k, v) in b {
+                e = e.env(os(k), os(v));
+            }
+        }
+        if let Some(p) = &c.cwd {
+            e = e.cwd(p);
+        }
+        if let Some(u) = c.setuid {
+            e = e.setuid(u);
+        }
+        if let Some(g) = c.setgid {
+            e = e.setgid(g);
+        }
+        drop(config);
+        run::monitored(|| e.popen())
+    } else {
+        run::monitored(|| Popen::create(&argv, config))
+    };
     let evs = m.events();
     let wit = |extra: J| J::obj().set("case", describe(c)).set("events", J::arr_s(&ilog::fmt_tail(&evs, 30))).set("detail", extra);
     ctx.count("spawns", 1);
